@@ -21,7 +21,7 @@ def direct_shape(sh, rng):
     fs, lo, hi = gen.gen_config(rng)
     sig, kind = gen.gen_signal(rng, fs, lo, hi, rng.uniform(1.5, 5.0))
     center = str(rng.choice(['peak', 'trough']))
-    n_cycles = int(rng.choice([2, 3, 5]))
+    n_cycles = [2, 3, 5, 2.5, 3.5, 4.75][int(rng.integers(0, 6))]          # any positive length is legal, also a fractional one
     fek = gen.gen_find_extrema_kwargs(rng, fs, lo)
     case = dict(sig=sig, fs=fs, f_range=(lo, hi), center_extrema=center, find_extrema_kwargs=fek, n_cycles=n_cycles,
                 family=kind)
@@ -45,7 +45,7 @@ def run_direct(sh, case, driver='direct_shape'):
     for v in vs:
         sh.violate(case, v, driver)
     asym = attach.COUNTS['C04:tables_asymmetric'] - before.get('C04:tables_asymmetric', 0)
-    sh.note('direct:n_cycles=%d' % case['n_cycles'])
+    sh.note('direct:n_cycles=%s' % ('fractional' if float(case['n_cycles']) != int(case['n_cycles']) else 'whole'))
     sh.case_done(case, df is not None and asym > 0 and len(df) >= 3, sample=pipeline.sample_of(case))
 
 
